@@ -192,7 +192,17 @@ def run_case(case, rng):
                 case.check(abs(float(qv2) - vstar) <= qtol, "fully-observable:qmdp-value!=optimal",
                            lambda: f"b={b.tolist()} QMDP={float(qv2)!r} V*={vstar!r}", **facts)
         # action distributions: uniform over exactly the maximisers of the policy's own action value
-        for pol, nm in ((res.policy, "pbvi"), (qm.policy if qm is not case.FAIL else None, "qmdp")):
+        if "fee_policy" not in locals():
+            from msdm.core.pomdp.alphavectorpolicy import AlphaVectorPolicy as _AVP
+            fee_action = A[0]
+
+            class FeePolicy(_AVP):
+                def action_value(self_, b_, a_):
+                    return _AVP.action_value(self_, b_, a_) - (2.5 if a_ == fee_action else 0.0)
+            fee_policy = case.call("AlphaVectorPolicy-subclass", FeePolicy, pomdp, np.array(res.policy.alpha_vectors))
+            case.count("value_policies_with_overridden_action_value")
+        for pol, nm in ((res.policy, "pbvi"), (qm.policy if qm is not case.FAIL else None, "qmdp"),
+                        (fee_policy if fee_policy is not case.FAIL else None, "subclass-overriding-action_value")):
             if pol is None:
                 continue
             d = case.call(f"{nm}.policy.action_dist", pol.action_dist, bel, facts=facts)
